@@ -12,7 +12,7 @@ use vh::{run_main, Ctx, Local};
 
 fn pool() -> Vec<String> {
     let mut v = vec![];
-    let spec: [(&str, &[&str]); 9] = [
+    let spec: [(&str, &[&str]); 13] = [
         ("a", &["", ":5", ":10", ":-1", ":x", ":", ":0", ":100"]),
         ("b", &["", ":5", ":10", ":-5", ":9"]),
         ("a-alias", &["", ":10"]),
@@ -23,6 +23,11 @@ fn pool() -> Vec<String> {
         // names that contain the priority separator: loaded (`ns:a`) and not loaded (`zzz:1`)
         ("ns:a", &["", ":7"]),
         ("zzz:1", &[":9"]),
+        // identifiers around two resources that were rejected for an alias collision
+        ("s1x", &[":3"]),
+        ("leak", &[":3"]),
+        ("bad2", &[":4"]),
+        ("bad", &[":4"]),
     ];
     for opt in ["redirect", "redirect-rule"] {
         for (res, sufs) in spec.iter() {
